@@ -25,8 +25,6 @@ func main() {
 	sp := buildSpace(r.Thorough())
 
 	if wkpool.IsWorker() {
-		// one P: a sync.Pool hand-over (Put by one request, Get by the next) is deterministic
-		runtime.GOMAXPROCS(1)
 		silenceStdout()
 		wkpool.Worker(sp.total, func(i int) *wkpool.CaseResult { return checkBatch(sp.at(i)) })
 		return
